@@ -4,7 +4,7 @@ CONSTANTS
   MaxLines = 3
   MaxSteps = 1
   KVals = {2, 3, 7}
-  CVals = {1, 2, 3, 5}
+  CVals = {1, 2, 3}
   HVals <- H_Two
 INVARIANT AdmittedIffBalanced
 INVARIANT Emit
